@@ -184,7 +184,7 @@ def exec_op(env: Env, op, dup_identity=False, op_fault=None):
             with win:
                 j = r.join(item, how) if how is not None else r.join(item)
                 res = getattr(j, op["fin"])(*a, **kw)
-            if res is r and getattr(r, "__dict__", {}).get("immutable", True) is False:
+            if res is r and lib.state(r).get("immutable", True) is False:
                 return MutableAlias(op["r"])
             return res
         if k == "render":
@@ -210,7 +210,7 @@ def exec_op(env: Env, op, dup_identity=False, op_fault=None):
             env.last_op_fault = op_fault["kind"]
             return Failed(type(e).__name__, str(e)[:200], injected=True, stage=stage)
         if stage == "call" and k in ("call", "join") and r is not None \
-                and getattr(r, "__dict__", {}).get("immutable", True) is False:
+                and lib.state(r).get("immutable", True) is False:
             return MutableAlias(op["r"], failed=type(e).__name__)
         return Failed(type(e).__name__, str(e)[:200], stage=stage)
 
@@ -249,7 +249,7 @@ def apply_alias_fx(env: Env, op):
     for d, alias in op.get("alias_fx", ()):
         if 0 <= d < len(env.heap):
             v = env.heap[d]
-            if is_object_slot(v) and getattr(v, "__dict__", {}).get("alias", 0) is None:
+            if is_object_slot(v) and lib.state(v).get("alias", 0) is None:
                 v.alias = alias
 
 
